@@ -124,7 +124,26 @@ func (v *Val) Ints() ([]int64, bool) {
 }
 
 // MapGet looks up an int or bool key.
+// Entries: number of entries of a table value, whether it is written as a map or as an array / slice.
+func (v *Val) Entries() int {
+	if v == nil {
+		return 0
+	}
+	if v.Kind == VList {
+		return len(v.List)
+	}
+	return len(v.Map)
+}
+
+// MapGetInt: the entry for the integer key k - of a map, or of an array / slice indexed by the key
+// (a table may be written either way).
 func (v *Val) MapGetInt(k int64) *Val {
+	if v != nil && v.Kind == VList {
+		if k >= 0 && int(k) < len(v.List) {
+			return v.List[k]
+		}
+		return nil
+	}
 	if v == nil || v.Kind != VMap {
 		return nil
 	}
